@@ -51,9 +51,17 @@ def run(ctx):
     # ---- R2 every report stored once ----------------------------------------------------------------------
     ins = [e for e in Q.calls(eng, "VacantEntry") if "insert" in e["callee"]]
     psh = [e for e in Q.calls(eng, "::push") if "collect_messages" in e["fn"]]
-    ok2 = len(ent) == 1 and len(ins) == 1 and len(psh) == 1
-    det = "entry/insert/push calls: %d/%d/%d" % (len(ent), len(ins), len(psh))
-    if ok2:
+    eor = [e for e in Q.calls(eng, "Entry::") if e.get("model") == "m_entry_or" and "collect_messages" in e["fn"]]
+    nxt = [e for e in Q.calls(eng, "Iterator") if "collect_messages" in e["fn"] and (e.get("dname") or "").endswith("Iterator::next")]
+    whole = len(nxt) == 1 and Q.variant(nxt[0]["result"], 1) is not None and Q.path_of(Q.variant(nxt[0]["result"], 1)[2][0]) == "all_messages.*" and \
+        not Q.contains(nxt[0]["argv"][0], lambda t: t.op in ("adapted", "filtered"))
+    ok2 = False
+    det = "entry/insert/push/or_default calls: %d/%d/%d/%d" % (len(ent), len(ins), len(psh), len(eor))
+    def into_bucket(e):
+        tgt = e["args"][0]
+        return tgt.op == "ref" and any(isinstance(p, tuple) and p[0] == "mapval" and p[1] is ent[0]["argv"][1] for p in tgt.args[1])
+    if len(ent) == 1 and len(ins) == 1 and len(psh) == 1:
+        # idiom (a): match on the entry, vacant arm inserts a fresh bucket with the report, occupied arm pushes it
         en = ent[0]["result"]
         fi = Q.closure(eng, eng.block_facts.get((ins[0]["frame"], ins[0]["block"]), frozenset()))
         fp = Q.closure(eng, eng.block_facts.get((psh[0]["frame"], psh[0]["block"]), frozenset()))
@@ -62,15 +70,17 @@ def run(ctx):
         el_i = ins[0]["argv"][1]
         el_p = psh[0]["argv"][1]
         stores = Q.path_of(el_p) == "all_messages.*" and el_i.op == "agg" and len(el_i.args) == 2 and Q.path_of(el_i.args[1]) == "all_messages.*"
-        # pushes go into the bucket of that key
-        tgt = psh[0]["args"][0]
-        into_bucket = tgt.op == "ref" and any(isinstance(p, tuple) and p[0] == "mapval" and p[1] is ent[0]["argv"][1] for p in tgt.args[1])
-        # loop over the whole input
-        nxt = [e for e in Q.calls(eng, "Iterator") if "collect_messages" in e["fn"] and (e.get("dname") or "").endswith("Iterator::next")]
-        whole = len(nxt) == 1 and Q.path_of(Q.variant(nxt[0]["result"], 1)[2][0]) == "all_messages.*" and \
-            not Q.contains(nxt[0]["argv"][0], lambda t: t.op in ("adapted", "filtered"))
-        ok2 = arm_v and arm_o and stores and into_bucket and whole
-        det = "vacant arm inserts: %s, occupied arm pushes: %s, the report itself is stored: %s, into its key's bucket: %s, loop over all reports: %s" % (arm_v, arm_o, stores, into_bucket, whole)
+        ok2 = arm_v and arm_o and stores and into_bucket(psh[0]) and whole
+        det = "vacant arm inserts: %s, occupied arm pushes: %s, the report itself is stored: %s, into its key's bucket: %s, loop over all reports: %s" % (arm_v, arm_o, stores, into_bucket(psh[0]), whole)
+    elif len(ent) == 1 and len(eor) == 1 and len(psh) == 1 and not ins:
+        # idiom (b): entry(key).or_default() / or_insert_with(Vec::new) followed by one unconditional push of the report
+        uncond = not Q.closure(eng, eng.block_facts.get((psh[0]["frame"], psh[0]["block"]), frozenset()) -
+                               eng.block_facts.get((nxt[0]["frame"], nxt[0]["block"]), frozenset())) if nxt else False
+        fresh_empty = True
+        stores = Q.path_of(psh[0]["argv"][1]) == "all_messages.*"
+        same_slot = psh[0]["args"][0] is eor[0]["result"] and into_bucket(psh[0])
+        ok2 = stores and same_slot and whole
+        det = "or_default slot of the key receives the report: %s (slot of this key: %s), loop over all reports: %s" % (stores, same_slot, whole)
     ctx.add("C18.R2", AS + "::collect_messages#each-report-stored-once", ok2,
             "both arms of the map-entry match must store the report (exactly one arm runs per report): %s" % det,
             ent[0]["at"] if ent else at, sample=det)
